@@ -101,7 +101,11 @@ type execOutcome struct {
 type planner func(ir *injRun, k KCase, b *Built) []*Plan
 
 func runExec(c *Ctx, k KCase, v *Verdict, race bool, mk planner) *execOutcome {
-	pr, bin := runPipeline(c, k.Spec, race)
+	return runExecY(c, k, v, race, false, mk)
+}
+
+func runExecY(c *Ctx, k KCase, v *Verdict, race, yields bool, mk planner) *execOutcome {
+	pr, bin := runPipelineY(c, k.Spec, race, yields)
 	if pr.Discard != "" {
 		if pr.B != nil {
 			pr.B.Close()
@@ -156,6 +160,9 @@ func planDesc(p *Plan) string {
 	if p.Policy == "starve" {
 		s += fmt.Sprintf("(%d)", p.Starve)
 	}
+	if p.Yields {
+		s += " +yields"
+	}
 	if p.Policy == "choices" {
 		s += fmt.Sprint(p.Choices)
 	}
@@ -195,6 +202,9 @@ func (o *execOutcome) failf(v *Verdict, ex *Exec, kind, site, f string, a ...any
 	v.Kind, v.Site = kind, site
 	p := o.plans[ex.Plan]
 	v.Fail = fmt.Sprintf(f, a...) + fmt.Sprintf("\ninjector %s, plan %s, repetition %d\nevents: %s\n", ex.Inj, planDesc(p), ex.Rep, evString(ex.Events))
+	if p.Policy == "starve" && p.Starve >= 200000 {
+		v.Fail += "starved yield point: " + o.b.Yields[p.Starve-200000] + "\n"
+	}
 	if len(ex.Blocked) > 0 {
 		v.Fail += fmt.Sprintf("blocked goroutines: %v\n", ex.Blocked)
 	}
@@ -250,6 +260,27 @@ func faultFreePlans(ir *injRun, k KCase) []*Plan {
 	return ps
 }
 
+// yieldPlans: schedules at statement granularity on the instrumented emitted code: FIFO, LIFO,
+// starve(y) for every yield point y of the injector (thread held right before that statement
+// while everything else runs), drawn choices.
+func yieldPlans(ir *injRun, k KCase, b *Built) []*Plan {
+	ps := []*Plan{{Policy: "fifo", CancelAt: -2, Yields: true}, {Policy: "lifo", CancelAt: -2, Yields: true}}
+	var ids []int
+	for id, d := range b.Yields {
+		if strings.HasPrefix(d, ir.name+" ") {
+			ids = append(ids, id)
+		}
+	}
+	sort.Ints(ids)
+	for _, id := range ids {
+		ps = append(ps, &Plan{Policy: "starve", Starve: 200000 + id, CancelAt: -2, Yields: true})
+	}
+	for _, t := range k.Plans {
+		ps = append(ps, &Plan{Policy: "choices", Choices: t.Choices, CancelAt: -2, Yields: true})
+	}
+	return ps
+}
+
 // ---------------------------------------------------------------- C01
 
 func checkC01(c *Ctx, k KCase) *Verdict {
@@ -266,6 +297,32 @@ func checkC01(c *Ctx, k KCase) *Verdict {
 	defer o.b.Close()
 	if res := c01Oracle(c, o, v, false); res != nil {
 		return res
+	}
+	// statement-granular schedules on the yield-instrumented emitted code
+	anyThreads := false
+	for _, ir := range o.runs {
+		if th, _ := threadsOf(o.b, ir.name); th >= 2 {
+			anyThreads = true
+		}
+	}
+	if anyThreads {
+		v3 := &Verdict{Features: v.Features}
+		o3 := runExecY(c, k, v3, false, true, func(ir *injRun, k KCase, b *Built) []*Plan {
+			if th, _ := threadsOf(b, ir.name); th < 2 {
+				return nil
+			}
+			return yieldPlans(ir, k, b)
+		})
+		if o3 != nil {
+			defer o3.b.Close()
+			v.Evals += v3.Evals
+			v.Features["yield-run"] = true
+			if res := c01Oracle(c, o3, v, false); res != nil {
+				return res
+			}
+		} else if v3.Discard != "" && v3.Discard != "no-plans" {
+			c.Rep.Discard("yield:" + v3.Discard)
+		}
 	}
 	// free-running -race executions of the same case
 	anyAsync := false
@@ -374,6 +431,13 @@ func checkC03(c *Ctx, k KCase) *Verdict {
 		return v
 	}
 	defer o.b.Close()
+	if res := c03Dynamic(c, o, v); res != nil {
+		return res
+	}
+	return c03Rest(c, k, o, v)
+}
+
+func c03Dynamic(c *Ctx, o *execOutcome, v *Verdict) *Verdict {
 	for _, ex := range o.execs {
 		th, _ := threadsOf(o.b, ex.Inj)
 		if th >= 2 {
@@ -406,6 +470,37 @@ func checkC03(c *Ctx, k KCase) *Verdict {
 		}
 		if len(ex.Blocked) > 0 || ex.Leaked {
 			return o.failf(v, ex, "blocked-after-return", fmt.Sprint(ex.Blocked), "goroutines remain blocked after a successful return: %v", ex.Blocked)
+		}
+	}
+	return nil
+}
+
+func c03Rest(c *Ctx, k KCase, o *execOutcome, v *Verdict) *Verdict {
+	// statement-granular schedules: a goroutine held between its last close and its return must
+	// still be joined before the injector returns
+	multi := false
+	for _, ir := range o.runs {
+		if th, _ := threadsOf(o.b, ir.name); th >= 2 {
+			multi = true
+		}
+	}
+	if multi {
+		v3 := &Verdict{Features: v.Features}
+		o3 := runExecY(c, k, v3, false, true, func(ir *injRun, k KCase, b *Built) []*Plan {
+			if th, _ := threadsOf(b, ir.name); th < 2 {
+				return nil
+			}
+			return yieldPlans(ir, k, b)
+		})
+		if o3 != nil {
+			defer o3.b.Close()
+			v.Evals += v3.Evals
+			v.Features["yield-run"] = true
+			if res := c03Dynamic(c, o3, v); res != nil {
+				return res
+			}
+		} else if v3.Discard != "" && v3.Discard != "no-plans" {
+			c.Rep.Discard("yield:" + v3.Discard)
 		}
 	}
 	// structural invariants on the emitted code
@@ -681,6 +776,45 @@ func checkC07(c *Ctx, k KCase) *Verdict {
 		return v
 	}
 	defer o.b.Close()
+	if res := c07Oracle(c, o, v); res != nil {
+		return res
+	}
+	// cancellation at statement granularity: after every release of the yield-instrumented code
+	v3 := &Verdict{Features: v.Features}
+	o3 := runExecY(c, k, v3, false, true, func(ir *injRun, k KCase, b *Built) []*Plan {
+		if th, _ := threadsOf(b, ir.name); th < 2 {
+			return nil
+		}
+		n := len(loggedNeeded(ir.r))
+		for _, d := range b.Yields {
+			if strings.HasPrefix(d, ir.name+" ") {
+				n++
+			}
+		}
+		var ps []*Plan
+		for at := 0; at < n; at++ {
+			ps = append(ps, &Plan{Policy: "fifo", CancelAt: at, Yields: true, Repeat: 2})
+			if c.Thorough() || at%2 == 0 {
+				ps = append(ps, &Plan{Policy: "lifo", CancelAt: at, Yields: true, Repeat: 2})
+			}
+		}
+		return ps
+	})
+	if o3 != nil {
+		defer o3.b.Close()
+		v.Evals += v3.Evals
+		v.Features["yield-run"] = true
+		if res := c07Oracle(c, o3, v); res != nil {
+			return res
+		}
+	} else if v3.Discard != "" && v3.Discard != "no-plans" {
+		c.Rep.Discard("yield:" + v3.Discard)
+	}
+	v.Sample = describeCase(o.b)
+	return v
+}
+
+func c07Oracle(c *Ctx, o *execOutcome, v *Verdict) *Verdict {
 	for _, ex := range o.execs {
 		ir := o.runs[ex.Inj]
 		v.Features["no-error-result"] = v.Features["no-error-result"] || !ex.HasErr
@@ -742,8 +876,7 @@ func checkC07(c *Ctx, k KCase) *Verdict {
 			}
 		}
 	}
-	v.Sample = describeCase(o.b)
-	return v
+	return nil
 }
 
 func TestC07(t *testing.T)        { runProperty(t, "C07", genExec("C07", 3, 9, "", false), checkC07) }
